@@ -50,4 +50,29 @@ theorem stepAll_wfTop (tbl : Tbl) (ck : Nat) (c : Cont) (v : Bytes) (h : wfTop t
   congr 2
   exact lastMtype_snoc_tag10 (flatCont c) v
 
+/-! ### non-vacuity: a message with a 2-item group whose first item holds a nested 2-item group -/
+
+def exTbl : Tbl :=
+  [([52, 53, 51], [[52, 52, 56], [52, 52, 55], [56, 48, 50]]), ([56, 48, 50], [[53, 50, 51]])]
+
+/-- `35=D | 453=2 | 448=a 802=2 [523=x] [523=y] | 448=b 447=D | 58=t` -/
+def exCont : Cont :=
+  [.leaf [51, 53] [68],
+   .group [52, 53, 51]
+     [[.leaf [52, 52, 56] [97],
+       .group [56, 48, 50] [[.leaf [53, 50, 51] [120]], [.leaf [53, 50, 51] [121]]]],
+      [.leaf [52, 52, 56] [98], .leaf [52, 52, 55] [68]]],
+   .leaf [53, 56] [116]]
+
+theorem exCont_wfTop : wfTop exTbl exCont = true := by
+  simp [wfTop, exTbl, exCont, wfNodes, wfNode, wfItems, wfItem, Tbl.members?, okTag, isDigit,
+    maxStrDigits, SOH, notOpen, openMembersNode, openMembersItems, openMembersCont, contTags,
+    Node.tag, tag10]
+
+example (ck : Nat) (v : Bytes) :
+    stepAll exTbl ck {} (flatCont exCont ++ [⟨tag10, v⟩]) =
+      .ok { top := exCont ++ [.leaf tag10 v], stack := [], mtype := lastMtype (flatCont exCont),
+            ckPassed := (ckParse v == some ck) } :=
+  stepAll_wfTop exTbl ck exCont v exCont_wfTop
+
 end AsyncFix.Model.Codec
